@@ -82,6 +82,19 @@ void harness::run_case(const eng::Raw& raw, eng::Ctx& ctx)
 		}
 		compare(ctx, "down", D, nd, sim, wantD);
 	}
+	if (nd == 0 || nu == 0) {
+		// the empty automaton with NumStates = 0: an empty relation must come back (both directions)
+		for (int up = (nd == 0 ? 0 : 1); up < 2; ++up) {
+			eng::LibSection ls(ctx, up ? "ComputeSimulation:up:empty" : "ComputeSimulation:down:empty");
+			VATA::ExplicitTreeAut a;
+			VATA::SimParam sp;
+			sp.SetRelation(up ? VATA::SimParam::e_sim_relation::TA_UPWARD : VATA::SimParam::e_sim_relation::TA_DOWNWARD);
+			sp.SetNumStates(0);
+			VATA::AutBase::StateDiscontBinaryRelation sim = a.ComputeSimulation(sp);
+			if (sim.size() != 0) ctx.fail(std::string("sim:") + (up ? "up" : "down") + ":empty-automaton", "non-empty relation for the empty automaton");
+			ctx.count("empty_automaton_checked");
+		}
+	}
 	if (nu > 0) {
 		VATA::AutBase::StateDiscontBinaryRelation sim;
 		{
